@@ -13,10 +13,12 @@ Lean side
 Adapter (this file) drives the real code through its public API:
   chem …     real `Chemical` objects: ~45 bundled chemicals × 3 reference phases, the same with Hfus/Tm given to
              the constructor, with Tm/Tb moved through the public setters, phase-locked chemicals through every
-             public route (Chemical(phase=), at_state in place, at_state(copy=True), Chemical.copy of a locked one), and blank chemicals with arbitrary Tm, Tb, Hfus, Sfus, Hvap and polynomial heat capacities.
+             public route (Chemical(phase=), at_state in place, at_state(copy=True), Chemical.copy of a locked one),
+             Chemical.copy histories (another Cn method selected for the original or the copy, with/without reset_free_energies), and blank chemicals with arbitrary Tm, Tb, Hfus, Sfus, Hvap and polynomial heat capacities.
              `wiring` reads the functor class and the constants actually stored in chemical.H.s/.l/.g, chemical.S.*
              and compares them with the model's `_init_energies` fed the integrals measured on the real Cn objects
              (table `tab`); `H`/`S` compare values.
+             H/S/Cn and mixtures are also called with the alias phase labels 'L' (second liquid phase) and 'S'.
   fn …       every translated functor against the Python functor on random parameters (fake Cn with closed-form integrals)
   mix …      IdealTPMixtureModel / IdealTMixtureModel / IdealEntropyModel through `IdealMixture` and real streams
   mixupd …   the same mixture object evaluated at one (phase, T, P), before and after a member chemical's data is updated
@@ -186,6 +188,17 @@ def get_chem(spec):
             c = fresh(); c.at_state(ph); c.at_state(ph)
         else:
             raise ValueError('unknown lock route ' + route)
+    elif kind == 'copy':
+        # copy <ID> <ref> <variant> <subject A|B> <phase> <k>: B = A.copy(); then another heat-capacity method is selected for
+        # ONE of the two (variant: none | orig-reset | copy-reset | copy-noreset); the subject is the chemical examined
+        ID, ref, variant, subject, ph, k = spec[1], spec[2], spec[3], spec[4], spec[5], int(spec[6])
+        A = tmo.Chemical(ID, phase_ref=ref, cache=False)
+        B = A.copy(ID + '_copy')
+        who = {'none': None, 'orig-reset': A, 'copy-reset': B, 'copy-noreset': B}[variant]
+        if who is not None:
+            switch_cn_method(getattr(who.Cn, ph), k, who)
+            if variant != 'copy-noreset': who.reset_free_energies()
+        c = A if subject == 'A' else B
     elif kind == 'synth':
         ref, Tm, Tb, Hfus, Sfus, Hvap, S0 = spec[1], ptok(spec[2]), ptok(spec[3]), ptok(spec[4]), ptok(spec[5]), ptok(spec[6]), float(spec[7])
         data = dict(phase_ref=ref, MW=50.)
@@ -208,6 +221,34 @@ def get_chem(spec):
     if len(_CHEMS) > 400: _CHEMS.clear()
     _CHEMS[key] = c
     return c
+
+
+def canon(ph):
+    """the phase a label stands for: 'L' (second liquid phase) is the liquid, 'S' the solid (PhaseHandle.L / .S)"""
+    return {'L': 'l', 'S': 's'}.get(ph, ph)
+
+
+def switch_cn_method(Cn, k, chem):
+    """select another method of the heat-capacity object through the public `method` setter: the k-th (cyclically) of the
+    other available methods that evaluates and integrates between the reference temperatures; returns its name or None"""
+    cur = Cn.method
+    others = sorted(m for m in Cn.all_methods if m != cur)
+    bounds = [chem.T_ref] + [float(x) for x in (chem.Tm, chem.Tb) if x]
+    for j in range(len(others)):
+        m = others[(k + j) % len(others)]
+        try:
+            Cn.method = m
+            ok = all(math.isfinite(float(Cn(t))) and float(Cn(t)) > 0 for t in bounds)
+            for a in bounds:
+                for b in bounds:
+                    for f in (Cn.T_dependent_property_integral, Cn.T_dependent_property_integral_over_T):
+                        v = safe_int(f, a, b)
+                        ok = ok and v is not None and math.isfinite(v)
+            if ok: return m
+        except Exception:
+            pass
+    Cn.method = cur
+    return None
 
 
 def cn_objects(c):
@@ -354,7 +395,7 @@ def sfus_none_case(c, kind, ph):
     """is a TypeError of chemical.S(ph, …) explained by a missing entropy of fusion (Sfus is None)?
     (DESIGN.md §8 #21, fixed in /repo by 7c3427a: a database chemical must not get here any more)"""
     if kind != 'S' or c.Sfus is not None or c.locked_state: return False
-    ref = c.phase_ref
+    ref, ph = c.phase_ref, canon(ph)
     return (ph == 's' and ref in 'lg') or (ph in 'lg' and ref == 's')
 
 
@@ -391,12 +432,34 @@ class Oracle:
         return v
 
     def phases(self):
-        return [self.c.locked_state] if self.c.locked_state else list('slg')
+        return [self.c.locked_state] if self.c.locked_state else list('slgLS')
+
+    # the alias labels 'L' (second liquid phase) and 'S' denote the liquid and the solid: H, S, Cn must agree
+    def alias(self, T, P):
+        c = self.c
+        if c.locked_state: return
+        for lab in 'LS':
+            self.tags.append('label:' + lab)
+            for kind in 'HS':
+                a = self.val(kind, lab, T, P)
+                b = self.val(kind, canon(lab), T, P)
+                if a is None or b is None: continue
+                if a != b:
+                    self.fail(f'phase-alias:{kind}.{lab}', f'{kind}({lab!r}, {T}, {P}) = {a!r} but {kind}({canon(lab)!r}, {T}, {P}) = {b!r}: '
+                              f'the label {lab!r} is the {"liquid" if lab == "L" else "solid"} (Cn({lab!r}) = Cn({canon(lab)!r}) = {c.Cn(lab, T)!r})')
+            try:
+                if c.Cn(lab, T) != c.Cn(canon(lab), T):
+                    self.fail(f'phase-alias:Cn.{lab}', f'Cn({lab!r}, {T}) = {c.Cn(lab, T)!r} but Cn({canon(lab)!r}, {T}) = {c.Cn(canon(lab), T)!r}')
+            except Exception as e:
+                self.tags.append('oracle-skip:alias:' + type(e).__name__)
 
     # H(ref phase, T_ref, P_ref) = H_ref ; S(...) = S0
-    def ref(self):
+    def ref(self, ph=None):
         c = self.c
-        ph = c.phase_ref
+        if ph is None:
+            for lab in 'LS':                     # the reference state through the alias label as well
+                if canon(lab) == c.phase_ref and not c.locked_state: self.ref(lab)
+            ph = c.phase_ref
         h = self.val('H', ph, c.T_ref, c.P_ref)
         if h is not None and not abs(h - c.H_ref) <= 1e-9:
             self.fail('ref-state:H', f'H({ph!r}, T_ref, P_ref) = {h!r}, expected H_ref = {c.H_ref!r}')
@@ -407,10 +470,11 @@ class Oracle:
     # dH/dT = Cn, dS/dT = Cn/T
     def deriv(self, ph, T, P):
         c, s = self.c, self.s
-        Cn = s.cns.get(ph)
+        Cn = s.cns.get(canon(ph))
         if not Cn: return
         h = 2e-4 * T
-        cn = lambda t: float(Cn(t))
+        # the chemical's own heat capacity for that phase label, through the public handle
+        cn = (lambda t: float(Cn(t))) if c.locked_state else (lambda t: float(c.Cn(ph, t)))
         try:
             cn(T)
         except Exception:
@@ -456,7 +520,7 @@ class Oracle:
                 if v1 is None: continue
                 v2 = self.val(kind, ph, T, P2)
                 if v2 is None: continue
-                exp = -R * math.log(P2 / P1) if (kind == 'S' and ph == 'g') else 0.0
+                exp = -R * math.log(P2 / P1) if (kind == 'S' and ph == 'g') else 0.0    # labels L, S are condensed phases
                 if not abs((v2 - v1) - exp) <= 1e-9 * max(1.0, abs(v1), abs(v2)):
                     sig = 'gas-entropy:pressure-term' if (kind == 'S' and ph == 'g') else f'pressure-dependence:{kind}.{ph}'
                     self.fail(sig, f'{kind}({ph!r},{T},{P2}) - {kind}({ph!r},{T},{P1}) = {v2 - v1!r}, expected {exp!r}')
@@ -546,9 +610,11 @@ def run_mix(t, emit, failures, tags, idx):
         failures.append({'signature': sig, 'op_index': idx(),
                          'what': f'mixture of {t[1]} phase {ph!r} T={T} P={P} mol={n}: {what}'})
     pure = {}
+    if ph in 'LS': tags.append('label:mix:' + ph)
     for kind in ('H', 'S', 'Cn'):
         try:
-            pure[kind] = [float(pure_value(c, kind, ph, T, P)) for c in chems]
+            # 'L' / 'S' are labels of the liquid / solid: the pure values are those of the phase they stand for
+            pure[kind] = [float(pure_value(c, kind, canon(ph), T, P)) for c in chems]
         except TypeError:
             pure[kind] = None          # a pure value cannot be evaluated: nothing to mix
             tags.append('mix-skip:' + kind)
@@ -593,7 +659,7 @@ def run_mix(t, emit, failures, tags, idx):
             if not abs(vkn - k * v) <= 1e-9 * abs(k) * (scale + abs(v)):
                 fail('mixture-S:not-extensive', f'S({k} n) = {vkn!r} but {k} S(n) = {k * v!r}')
     # multi-phase: xH, xS over (l: n, g: m)
-    if ph in 'lg' and pure['H'] is not None:
+    if ph in 'lgL' and pure['H'] is not None:
         try:
             pm = [('l', np.array(n)), ('g', np.array(m))]
             parts = [float(mix.H('l', np.array(n), T, P)), float(mix.H('g', np.array(m), T, P))]
@@ -611,6 +677,11 @@ def run_mix(t, emit, failures, tags, idx):
         o.T = T; o.P = P
         Sa, Sb, So = a.S, b.S, o.S
         count += 1
+        if pure['H'] is not None:
+            linH = math.fsum(x * y for x, y in zip(n, pure['H']))
+            scH = math.fsum(abs(x * y) for x, y in zip(n, pure['H'])) + 1e-12
+            if not abs(a.H - linH) <= 1e-9 * scH:
+                fail('stream-H:not-mole-weighted-sum', f'Stream(phase={ph!r}).H = {a.H!r} but sum n_i H_i({canon(ph)!r}, T, P) = {linH!r}')
         if So < Sa + Sb - 1e-9 * (abs(Sa) + abs(Sb) + 1.0):
             # proportional streams: mixing changes nothing, S must be exactly additive; otherwise it must not fall
             fail('mixture-entropy:mixing-term-sign' if mixing_sign_explains(n, m, So - Sa - Sb) else 'mixture-entropy:mixing-lowers-S',
@@ -787,6 +858,7 @@ def run_ops(ops):
         if op == 'chem':
             sess = Session(get_chem(tuple(t[1:])))
             tags.append('chem:' + t[1] + ':' + (sess.c.locked_state and 'locked' or sess.c.phase_ref))
+            if t[1] == 'copy': tags.append(f'copy-history:{t[4]}:{t[5]}')
             if t[1] == 'lock': tags.append('lock-route:' + (t[4] if len(t) > 4 else 'ctor') + ':' + t[3])
             for l in sess.head(): emit(l, 'ok')
         elif op == 'wiring':
@@ -798,10 +870,11 @@ def run_ops(ops):
         elif op in ('H', 'S'):
             ph, T, P = t[1], float(t[2]), float(t[3])
             if sess.c.locked_state: ph = sess.c.locked_state
-            if not sess.cns.get(ph): continue            # no heat-capacity model for that phase: thermo itself fails
+            if not sess.cns.get(canon(ph)): continue     # no heat-capacity model for that phase: thermo itself fails
             for l in sess.tabs([T]): emit(l, 'ok')
             if not any(l.startswith('init') for l in model_in): emit(sess.init_line(), sess.init_answer())
             emit(f'{op} {ph} {fbits(T)} {fbits(P)}', sess.value_tok(op, ph, T, P))
+            if ph in 'LS': tags.append('label:' + ph)
         elif op.startswith('o:'):
             o = Oracle(sess, failures, tags, idx)
             if incomplete(sess.c):
@@ -809,6 +882,7 @@ def run_ops(ops):
             if op == 'o:ref': o.ref()
             elif op == 'o:deriv': o.deriv(sess.c.locked_state or t[1], float(t[2]), float(t[3]))
             elif op == 'o:press': o.press(float(t[1]), float(t[2]), float(t[3]))
+            elif op == 'o:alias': o.alias(float(t[1]), float(t[2]))
             elif op == 'o:jumpTb': o.jump('Tb')
             elif op == 'o:jumpTm': o.jump('Tm')
             else: raise ValueError('unknown op ' + line)
@@ -981,7 +1055,7 @@ def search(case, rng, budget_s):
 # --------------------------------------------------------------------------
 def t_range(c, ph):
     """a temperature range inside the validity range of the phase's heat-capacity correlation"""
-    Cn = cn_objects(c).get(ph)
+    Cn = cn_objects(c).get(canon(ph))
     lo, hi = 120.0, 900.0
     try:
         if Cn and Cn.Tmin is not None: lo = max(lo, float(Cn.Tmin) + 2.0)
@@ -1013,6 +1087,9 @@ def oracle_ops(rng, c):
     ops.append(f'o:press {rnd_T(rng, c, phases[-1])} {rnd_P(rng)} {rnd_P(rng)}')
     if not c.locked_state:
         ops += ['o:jumpTb', 'o:jumpTm']
+        lab = rng.choice('LS')
+        ops.append(f'o:deriv {lab} {rnd_T(rng, c, canon(lab))} {rnd_P(rng)}')
+        ops.append(f'o:alias {rnd_T(rng, c, "l")} {rnd_P(rng)}')
     return ops
 
 
@@ -1032,12 +1109,16 @@ def gen_chem_case(rng):
     ref = rng.choice('slg')
     if r < 0.34: spec = f'db {ID} {ref}'
     elif r < 0.54: spec = f'ctor {ID} {ref}'
-    elif r < 0.68:
+    elif r < 0.64:
         base = get_chem(('db', ID, ref))
         Tm = round(base.Tm * rng.uniform(0.7, 1.4), 2)
         Tb = round(min(base.Tb * rng.uniform(0.75, 1.25), 0.93 * (base.Tc or 1e9)), 2)
         q = rng.random()
         spec = f'set {ID} {ref} {Tm if q < 0.7 else "-"} {Tb if q > 0.35 else "-"}'
+    elif r < 0.71:
+        variant = rng.choice(['none', 'orig-reset', 'orig-reset', 'copy-reset', 'copy-noreset', 'copy-noreset'])
+        subject = 'A' if variant == 'copy-reset' and rng.random() < 0.5 else 'B'
+        spec = f'copy {ID} {ref} {variant} {subject} {rng.choice("slg")} {rng.randrange(6)}'
     elif r < 0.78:
         route = rng.choice(LOCK_ROUTES)
         spec = f'lock {ID} {rng.choice("slg")} {route}'
@@ -1059,6 +1140,7 @@ def gen_chem_case(rng):
     phases = [c.locked_state] if c.locked_state else list('slg')
     for _ in range(rng.randrange(2, 6)):
         ph = rng.choice(phases)
+        if not c.locked_state and rng.random() < 0.15: ph = rng.choice('LS')      # alias labels of the handles
         ops.append(f'{rng.choice("HS")} {ph} {rnd_T(rng, c, ph)} {rnd_P(rng)}')
     if c.Tc and rng.random() < 0.3:
         for _ in range(2):
@@ -1066,6 +1148,10 @@ def gen_chem_case(rng):
             T = round(c.Tc * rng.choice([0.8, 1.05, 1.3]), 1)
             ops.append(f'{rng.choice(["Hforce", "Sforce"])} {ph} {T} {rnd_P(rng)} {rng.choice("011")}')
     ops += oracle_ops(rng, c)
+    if spec.startswith('copy ') and ' copy-noreset ' in spec:
+        # the method was switched WITHOUT reset_free_energies: the constants wired between T_ref, Tm, Tb are (legitimately)
+        # those of the old method, so only what must hold regardless is examined: derivatives, reference state, aliases
+        ops = [ops[0]] + [o for o in ops if o.startswith(('o:ref', 'o:deriv', 'o:alias'))]
     return Case(ops, {})
 
 
@@ -1107,7 +1193,7 @@ def gen_mix_case(rng):
     pool = MIX_IDS
     ids = rng.sample(pool, min(k, len(pool)))
     if rng.random() < 0.3: ids.append(rng.choice(['Glucose:s', 'CO2:g']))
-    ph = rng.choice('llggs')
+    ph = rng.choice('llggsLLS')
     T = round(rng.uniform(260, 480), 1)
     P = rnd_P(rng)
     def flows():
@@ -1193,6 +1279,16 @@ def corpus():
               'H s 300.0 101325.0', 'S s 300.0 200000.0', 'S l 300.0 200000.0', 'S g 300.0 200000.0', 'o:ref', 'o:jumpTb', 'o:jumpTm']),
         Case(['phaseref db Water', 'phaseref db CO2', 'phaseref blank 298.15 400.0', 'phaseref blank 200.0 298.15',
               'phaseref blank none none', 'phaseref blank 400.0 none', 'phaseref blank 0.0 250.0']),
+        # Chemical.copy histories: another Cn method selected for the original / the copy (seeded change C07-5)
+        Case(['chem copy Ethanol l orig-reset B l 0', 'wiring', 'H l 340.0 101325.0', 'S l 340.0 101325.0', 'o:ref',
+              'o:deriv l 320.0 101325.0', 'o:jumpTb']),
+        Case(['chem copy Ethanol l copy-noreset B l 1', 'o:ref', 'o:deriv l 320.0 101325.0']),
+        Case(['chem copy Water g copy-reset A g 0', 'wiring', 'o:ref', 'o:deriv g 400.0 101325.0', 'o:jumpTb']),
+        # the alias phase labels 'L' (second liquid phase) and 'S' (seeded change C07-6)
+        Case(['chem db Water l', 'wiring', 'H L 320.0 101325.0', 'S L 320.0 101325.0', 'H S 250.0 101325.0', 'o:ref',
+              'o:deriv L 320.0 101325.0', 'o:alias 320.0 101325.0']),
+        Case(['mix Water,Ethanol,Glycerol L 320.0 101325.0 10.0,1.0,10.0 1.0,0.0,2.0 2.0']),
+        Case(['mix Water,Ethanol S 250.0 101325.0 2.0,3.0 1.0,1.0 0.5']),
         # include_excess_energies and force_gas_critical_phase
         Case(['mixx Water,Ethanol,Propane g 350.0 200000.0 1.0,2.0,0.5 0.5,0.0,3.0 2.0 1']),
         Case(['mixx Water,Ethanol,Propane l 350.0 200000.0 1.0,2.0,0.5 0.5,0.0,3.0 2.0 0']),
